@@ -11,7 +11,7 @@ Bound: the adversaries listed in ADVERSARIES x command budget 1000.  Usage:
   bounded_cards.py --case '<json>'                          -> replays one case
 """
 import sys, os, json
-sys.path.insert(0, os.path.join(os.environ.get('NFCPY_REPO', '/repo'), 'src'))
+sys.path.insert(0, os.path.join(os.environ.get('NFCPY_REPO', os.environ.get('VERIF_REPO', '/repo')), 'src'))
 import logging
 logging.disable(logging.CRITICAL)
 from unittest import mock
